@@ -194,6 +194,26 @@ Proof.
   - rewrite (composed_cmp_repr _ _ _ _ Dch Db Vps Vb), (composed_cmp_repr _ _ _ _ Dfl Db Vps Vb). reflexivity.
 Qed.
 
+(* ---- the operators are the trait functions (T1 tie: a rewritten Ord::cmp
+   makes this lemma fail) *)
+Lemma name_ops_delegate :
+  name_ord_is_name_cmp = true /\ relname_ord_is_name_cmp = true /\ parsed_ord_is_name_cmp = true.
+Proof. repeat split; reflexivity. Qed.
+
+Theorem name_ord_repr ra rb a b : denotes ra (a ++ [[]]) -> denotes rb (b ++ [[]]) -> valid_abs a ->
+  m_name_ord ra rb = Ok (name_cmp a b) /\ m_parsed_ord ra rb = Ok (name_cmp a b).
+Proof.
+  intros Da Db Va. unfold m_name_ord, m_parsed_ord, ord_via.
+  destruct name_ops_delegate as [-> [_ ->]]. split; apply name_cmp_repr; assumption.
+Qed.
+
+Theorem relname_ord_repr ra rb a b : denotes ra a -> denotes rb b -> valid_rel a ->
+  m_relname_ord ra rb = Ok (name_cmp a b).
+Proof.
+  intros Da Db Va. unfold m_relname_ord, ord_via. destruct name_ops_delegate as [_ [-> _]].
+  apply relname_cmp_repr; assumption.
+Qed.
+
 (* ---- UncertainName *)
 Theorem uncertain_abs_eq a b : valid_abs a -> valid_abs b ->
   m_uncertain_eq (UAbs (wire_abs a)) (UAbs (wire_abs b)) = Ok (name_eqb a b) /\
